@@ -131,8 +131,15 @@ def guard_atomicity_rule(ctx, program, rid):
     def holder(n):
         p = getattr(n, "_parent", None)
         while p is not None and p is not fn:
-            if isinstance(p, ast.AsyncWith) and any(norm(i.context_expr).replace("self.", "") in locks for i in p.items):
-                return p
+            if isinstance(p, ast.AsyncWith):
+                for i in p.items:
+                    nm = norm(i.context_expr).replace("self.", "")
+                    if isinstance(i.context_expr, ast.Name):
+                        for a in body_walk(fn):
+                            if isinstance(a, ast.Assign) and any(isinstance(t, ast.Name) and t.id == i.context_expr.id for t in a.targets):
+                                nm = norm(a.value).replace("self.", "")
+                    if nm in locks:
+                        return p
             p = getattr(p, "_parent", None)
         return None
 
